@@ -258,8 +258,13 @@ fn rename_variable(
     };
 
     // Rename the variable declaration.
-    let decl = Declaration::cast(external.node(folder.modules().unwrap())).unwrap();
-    let decl_location = node_location(workspace, decl.identifier().node())?;
+    // The binder is either a declaration or a binding (function parameter, recursion variable).
+    let binder = external.node(folder.modules().unwrap());
+    let binder_ident = match Declaration::cast(binder) {
+        Some(decl) => decl.identifier().node(),
+        None => binder.first(),
+    };
+    let decl_location = node_location(workspace, binder_ident)?;
     let decl_edit = TextEdit::new(decl_location.range, new_name.into());
     changes.insert(decl_location.uri, vec![decl_edit]);
 
